@@ -6,10 +6,12 @@ import (
 	"fmt"
 	"math"
 	"os"
+	"reflect"
 	"runtime"
 	"strings"
 	"testing"
 
+	"github.com/yaricom/goNEAT/v4/neat"
 	"github.com/yaricom/goNEAT/v4/neat/genetics"
 	"pgregory.net/rapid"
 )
@@ -53,6 +55,9 @@ func canonicalDump(pop *genetics.Population) string {
 		for _, g := range s.Genes {
 			fmt.Fprintf(&b, " g %d %d %s %v %d %s %v %d\n", g.In, g.Out, fbits(g.W), g.Rec, g.Innov, fbits(g.Mut), g.En, g.Trait)
 		}
+		for _, m := range s.Modules {
+			fmt.Fprintf(&b, " m %d %d %d %s %v %d %v %v\n", m.Id, m.Act, m.Innov, fbits(m.Mut), m.En, m.Trait, m.Ins, m.Outs)
+		}
 	}
 	return b.String()
 }
@@ -88,6 +93,11 @@ func xorStart() GenomeSpec {
 
 // evolve runs the scenario and returns the dump of the final population together with growth indicators.
 func evolve(sc Scenario) (dump string, written string, grew bool, err error) {
+	defer func() {
+		if r := recover(); r != nil { // a scenario that dies is an outcome like any other: it has to die the same way twice
+			dump, written, grew, err = "", "", false, fmt.Errorf("panic: %v", r)
+		}
+	}()
 	startGenes := 0
 	var final *genetics.Population
 	err = runScenario(sc, epochHooks{
@@ -132,11 +142,27 @@ func firstDifference(a, b string) string {
 type C17Case struct {
 	Sc     Scenario   `json:"scenario"`
 	Others []Scenario `json:"unrelated_work"`
+	// Derived: in the second run the options object is a by-value copy of an options object that was used before
+	// (for another population), with every setting overwritten: equal option values are equal inputs
+	Derived bool `json:"second_run_options_copied_from_used_object"`
+}
+
+// deriveOptions: a by-value copy of a used options object with every exported field set from want.
+func deriveOptions(used, want *neat.Options) *neat.Options {
+	cp := *used
+	dv, sv := reflect.ValueOf(&cp).Elem(), reflect.ValueOf(want).Elem()
+	for i := 0; i < dv.NumField(); i++ {
+		if dv.Field(i).CanSet() {
+			dv.Field(i).Set(sv.Field(i))
+		}
+	}
+	return &cp
 }
 
 func genC17() *rapid.Generator[C17Case] {
 	main := genScenario(ScenarioCfg{MaxEpochs: pick(20, 30), Parallel: 0, Structural: true})
 	other := genScenario(ScenarioCfg{MaxEpochs: 2, Parallel: 0, Structural: true, MaxPop: 8})
+	modular := genGenomeSpec(GenomeCfg{Modules: true, MinGenes: 1, MaxHidden: 2, MaxGenes: 8, ModestWeight: true})
 	return rapid.Custom(func(t *rapid.T) C17Case {
 		c := C17Case{Sc: main.Draw(t, "scenario")}
 		if rapid.IntRange(0, 2).Draw(t, "stealing variant") == 0 {
@@ -150,6 +176,19 @@ func genC17() *rapid.Generator[C17Case] {
 			c.Sc.Epochs = rapid.IntRange(8, pick(20, 30)).Draw(t, "epochs (stealing)")
 			c.Sc.Fit.Kind = rapid.SampledFrom([]string{"uniform", "heavy", "distinct", "genome"}).Draw(t, "fitness (stealing)")
 		}
+		switch rapid.IntRange(0, 59).Draw(t, "special start") { // (rapid favours the ends of a range: interior values are rare)
+		case 37: // a large population (thresholds in population code are typically powers of two)
+			c.Sc.Ctor = "spawn"
+			c.Sc.Opts.PopSize = rapid.SampledFrom([]int{1000, 2048, 4096}).Draw(t, "large population")
+			c.Sc.Opts.BabiesStolen = 0
+			c.Sc.Epochs = rapid.IntRange(1, 2).Draw(t, "epochs (large)")
+		case 20, 21, 22, 23, 24, 25: // a modular start genome (two or more modules reach the children of crossovers)
+			c.Sc.Ctor = "spawn"
+			c.Sc.Start = modular.Draw(t, "modular start")
+			c.Sc.Opts.PopSize = rapid.IntRange(4, 20).Draw(t, "pop size (modular)")
+			c.Sc.Epochs = rapid.IntRange(1, 4).Draw(t, "epochs (modular)")
+		}
+		c.Derived = rapid.IntRange(0, 2).Draw(t, "derived options") == 0
 		n := rapid.IntRange(0, 3).Draw(t, "unrelated scenarios")
 		for i := 0; i < n; i++ {
 			c.Others = append(c.Others, other.Draw(t, "unrelated"))
@@ -170,7 +209,28 @@ func CheckC17(c C17Case, rec *Rec) error {
 		_, _, _, _ = evolve(o)
 		rec.Class("generated unrelated scenario between the runs")
 	}
+	if c.Derived {
+		used := defaultOpts()
+		if len(c.Others) > 0 {
+			used = c.Others[0].Opts
+		}
+		buildOptions = func(o OptSpec) *neat.Options {
+			u := used.Build()
+			if pop, err := genetics.NewPopulation(xorStart().Build(), u); err == nil {
+				_ = newExecutor(u).NextEpoch(u.NeatContext(), 0, pop)
+			}
+			return deriveOptions(u, o.Build())
+		}
+		rec.Class("second run with options copied from a used object")
+	}
 	d2, w2, _, err2 := evolve(sc)
+	buildOptions = func(o OptSpec) *neat.Options { return o.Build() }
+	if len(sc.Start.Modules) > 0 {
+		rec.Class("modular start genome")
+	}
+	if sc.Opts.PopSize >= 1000 {
+		rec.Class("large population")
+	}
 	if err1 != nil || err2 != nil {
 		// a scenario that fails is judged by the properties about construction and turnover; here only "the same
 		// inputs give the same outcome" matters
